@@ -18,6 +18,7 @@ import math
 import os
 import shutil
 import tempfile
+from decimal import Decimal
 from fractions import Fraction
 
 from . import common as C
@@ -153,7 +154,7 @@ def gen_values(r, n, integer, allow_missing=True):
         vals = [r.choice(["0", "0", "0.5"]) for _ in range(n)]
     elif mode < 0.24 and not integer and n:
         vals[r.randrange(n)] = "-0.25"
-    if allow_missing and n and r.random() < 0.08:
+    if allow_missing and n and r.random() < 0.04:
         vals[r.randrange(n)] = "."
     return vals
 
@@ -162,10 +163,10 @@ def gen_info(r, n_alts, malformed_ok=True):
     """INFO column text for a record with n_alts ALTs"""
     items = []
     for name, num, ty in FIELDS:
-        if r.random() < 0.12:
+        if r.random() < 0.08:
             continue                                  # key absent from the record
         want = {"R": n_alts + 1, "A": n_alts, "1": 1, ".": r.choice([1, 2, n_alts + 1]), "2": 2}[num]
-        if malformed_ok and num in "RA" and r.random() < 0.06:
+        if malformed_ok and num in "RA" and r.random() < 0.03:
             want = max(0, want + r.choice([-1, 1]))    # wrong number of values
         if want == 0:
             if num == "A" and r.random() < 0.3:
@@ -268,6 +269,27 @@ def oracle_prior(rec, tag, flt):
             "integer": tag is not None and rec.header.info.get(tag).type == "Integer"}
 
 
+def rounding_margin(rec, doc) -> bool:
+    """True when some observation of the filter field lies between the decimal threshold and float(threshold)"""
+    if doc is None:
+        return False
+    field, _, val = doc
+    v = value_of_doc(val)
+    if v is None or isinstance(v, int) or field not in rec.header.info:
+        return False
+    try:
+        exact = Fraction(Decimal(val if val[0] != "." else "0" + val))
+    except Exception:   # noqa: BLE001
+        return False
+    fl = Fraction(v)
+    if exact == fl:
+        return False
+    lo, hi = min(exact, fl), max(exact, fl)
+    obs = rec.info.get(field)
+    obs = obs if isinstance(obs, tuple) else (() if obs is None else (obs,))
+    return any(x is not None and lo <= Fraction(x) <= hi for x in obs)
+
+
 def scenario_of(o):
     """NOA / AF0 / valid, and the usable alleles (indices into the retained alleles)"""
     n = len(o["raw"])
@@ -358,21 +380,23 @@ def run(tier, replay=None):
                 for _ in range(n_cfg):
                     # frequency tag
                     u = r.random()
-                    tag = None if u < 0.3 else ("PF" if u < 0.65 else r.choice(["IR", "AX", "ONE", "DOT", "TWO", "UNDEF", "IA"]))
+                    tag = None if u < 0.3 else ("PF" if u < 0.8 else ("IR" if u < 0.88 else r.choice(["AX", "ONE", "DOT", "TWO", "UNDEF", "IA"])))
                     # filter
                     flt, doc = None, None
                     u = r.random()
                     if u < 0.75:
-                        field = r.choice(["PF", "PF", "AX", "AX", "IR", "IA"]) if r.random() < 0.9 else r.choice(["ONE", "DOT", "ZZ"])
+                        field = r.choice(["PF", "PF", "AX", "AX", "IR", "IA"]) if r.random() < 0.94 else r.choice(["ONE", "DOT", "ZZ"])
                         op = r.choice(OPS if r.random() < 0.1 else DOC_OPS)
                         own = rec.info.get(field) if field in rec.header.info else None
                         pool = [x for x in (own if isinstance(own, tuple) else ()) if x is not None]
                         val = None
                         if pool and r.random() < 0.6:
+                            # a threshold exactly equal to one of the record's own values: the exact decimal expansion of
+                            # the float32 the record stores (no decimal -> binary rounding between model and code)
                             x = r.choice(pool)
-                            sx = repr(float(x)) if not isinstance(x, int) else str(x)
-                            if "e" not in sx and not sx.startswith("-"):
-                                val = sx if r.random() < 0.7 else sx.rstrip("0") if "." in sx else sx
+                            sx = str(x) if isinstance(x, int) else format(Decimal(float(x)), "f")
+                            if not sx.startswith("-"):
+                                val = sx
                         if val is None:
                             val = r.choice(GRID)
                         flt = field + op + val
@@ -391,7 +415,7 @@ def run(tier, replay=None):
                     reqs.append(" ".join(["lp"] + rtoks + ["-" if tag is None else hexs(tag), "-" if flt is None else hexs(flt)]))
                     impls.append(im)
                     orc = oracle_prior(rec, tag, doc) if (flt is None or doc is not None) else None
-                    metas.append((rec.id, rec.ref, alts_in, str(dict(rec.info)), tag, flt, orc, n_alts))
+                    metas.append((rec.id, rec.ref, alts_in, str(dict(rec.info)), tag, flt, orc, n_alts, rounding_margin(rec, doc)))
                 # apply_allele_filter alone (keep array before the reference is forced)
                 for _ in range(2):
                     field = r.choice(["PF", "AX", "IR", "IA", "ONE", "DOT", "ZZ"])
@@ -414,8 +438,13 @@ def run(tier, replay=None):
                 if a != im:
                     chk.disagreement("apply_allele_filter != model", {"request": req, "impl": im, "model": a})
                 continue
-            rid, ref, alts_in, info, tag, flt, orc, n_alts = meta
+            rid, ref, alts_in, info, tag, flt, orc, n_alts, margin = meta
             case = {"record": rid, "ref": ref, "alts": alts_in, "info": info, "frequency_tag": tag, "allele_filter": flt}
+            if margin:
+                # an observation lies between the decimal threshold and its float64 rounding: decision boundary inside the
+                # rounding margin (DESIGN App. A) - counted, not compared
+                chk.count("lp:threshold-inside-rounding-margin")
+                continue
             if isinstance(im, str):
                 chk.count("lp:" + im[:40])
                 chk.case(req, False)
@@ -555,23 +584,26 @@ def gen_hap_records(r, ds, per_locus):
             extra = [hap_string(ds, l, v) for v in r.sample(space, min(len(space), 4))] if space else []
             cand = [h for h in dict.fromkeys(pool + extra) if h != ref]
             r.shuffle(cand)
-            n_alts = min(len(cand), r.choice([0, 1, 2, 3, 3, 4]))
+            n_alts = min(len(cand), r.choice([0, 1, 2, 3, 3, 4, 4]))
             alts = cand[:n_alts]
             n = n_alts + 1
             mode = r.random()
-            pf = [r.choice(["0", "0", "0.125", "0.25", "0.5", "1", "2"]) for _ in range(n)]
-            if mode < 0.15:
+            pf = [r.choice(["0", "0.125", "0.25", "0.25", "0.5", "1", "2"]) for _ in range(n)]
+            if mode < 0.08:
                 pf = ["0"] * n
             elif mode < 0.3:
                 pf = [r.choice(["0.25", "0.5", "1"]) for _ in range(n)]
-            elif mode < 0.4:
+            elif mode < 0.38:
                 pf = ["0"] * n
                 pf[r.randrange(n)] = "0.5"
+            elif mode < 0.55 and n >= 2:
+                pf[-1] = "0"                     # the highest-numbered allele has zero prior (relabel's n_allele)
+                pf[0] = "0.5"
             items = [f"PF={','.join(pf)}"]
             if n_alts:
                 items.append("AX=" + ",".join(r.choice(["0", "0.125", "0.25", "0.5", "1"]) for _ in range(n_alts)))
             items.append("IR=" + ",".join(str(r.choice([0, 1, 2, 5])) for _ in range(n)))
-            if r.random() < 0.25:
+            if r.random() < 0.2:
                 items.append("REFMASKED")
             recs.append((l, f"{l.contig}\t{l.start + 1}\t{l.name}.{k}\t{ref}\t{','.join(alts) if alts else '.'}\t.\tPASS\t{';'.join(items)}"))
     order = {c: i for i, c in enumerate(ds.contigs)}
@@ -605,8 +637,11 @@ def cli(chk, drv, r, tier, work, S, pysam):
             # configurations: (program, frequency tag, documented filter components)
             def rnd_filter():
                 field = r.choice(["PF", "AX", "IR"])
-                op = r.choice(DOC_OPS)
-                val = r.choice(["0", "0.125", "0.25", "0.5", "1"]) if field != "IR" else r.choice(["0", "1", "2", "5"])
+                op = r.choice([">", ">", ">=", ">=", "!=", "<", "<=", "="])
+                if op in (">", ">=", "!="):
+                    val = r.choice(["0", "0.125", "0.25"]) if field != "IR" else r.choice(["0", "1"])
+                else:
+                    val = r.choice(["0.25", "0.5", "1", "2"]) if field != "IR" else r.choice(["1", "2", "5"])
                 return (field, op, val)
             ped = S.write_text(os.path.join(dsdir, "ped.txt"), f"{ds.samples[0]}\t.\t.\n{ds.samples[1]}\t.\t.\n"
                                                                    f"{ds.samples[2]}\t{ds.samples[0]}\t{ds.samples[1]}\n")
